@@ -48,7 +48,7 @@ func genC06(r *sim.Rand, tier string) *sim.Program {
 	nsig := 0
 	for i := 0; i < nops; i++ {
 		if kk >= 3 {
-			p.Add("sign", r.Intn(3), r.Intn(1<<30)).WithB(r.Bytes(uidLen()), r.Bytes(r.PickInt(0, 1, 32, 33, 100)))
+			p.Add("sign", r.Intn(5), r.Intn(1<<30)).WithB(r.Bytes(uidLen()), r.Bytes(r.PickInt(0, 1, 32, 33, 100)))
 			continue
 		}
 		if nsig == 0 || r.Chance(1, 4) {
@@ -69,10 +69,10 @@ func genC06(r *sim.Rand, tier string) *sim.Program {
 				if r.Chance(1, 2) {
 					p.Add("rekey", r.Intn(1<<30), r.Intn(2))
 				} else {
-					p.Add("sign", r.Intn(3), r.Intn(1<<30)).WithB(r.Bytes(uidLen()), r.Bytes(r.PickInt(0, 1, 32, 33, 100, 300)))
+					p.Add("sign", r.Intn(5), r.Intn(1<<30)).WithB(r.Bytes(uidLen()), r.Bytes(r.PickInt(0, 1, 32, 33, 100, 300)))
 				}
 			default:
-				p.Add("sign", r.Intn(3), r.Intn(1<<30)).WithB(r.Bytes(uidLen()), r.Bytes(r.PickInt(0, 1, 32, 33, 100, 300)))
+				p.Add("sign", r.Intn(5), r.Intn(1<<30)).WithB(r.Bytes(uidLen()), r.Bytes(r.PickInt(0, 1, 32, 33, 100, 300)))
 			}
 			nsig++
 			continue
@@ -225,7 +225,7 @@ func execC06(t *testing.T, p *sim.Program, c *sim.Ctx) {
 		}
 		c.OpsDone++
 		if op.K == "sign" {
-			entry := op.Int(0) % 3
+			entry := ((op.Int(0) % 5) + 5) % 5
 			uid, msg := op.Bytes(0), op.Bytes(1)
 			if len(uid) > 8191 {
 				uid = uid[:8191]
@@ -251,6 +251,39 @@ func execC06(t *testing.T, p *sim.Program, c *sim.Ctx) {
 						return
 					}
 					sig, err = priv.Sign(rd, h, nil)
+				}
+			case 3, 4:
+				// the package-level functions that take the embedded ecdsa key and return (r, s); the digest for entry 3
+				// comes from the streaming hasher (NewHashWithUserID), used twice with a Reset in between
+				var rr, ss *big.Int
+				if entry == 3 {
+					hs, herr := sm2.NewHashWithUserID(&priv.PublicKey, effUID(uid)) // this entry point hashes the identifier it is given: empty means empty, the default has to be named
+					if herr != nil {
+						err = herr
+						break
+					}
+					hs.Write([]byte("another message first"))
+					hs.Sum(nil)
+					hs.Reset()
+					half := len(msg) / 2
+					hs.Write(msg[:half])
+					hs.Sum(nil) // Sum must not disturb the running state
+					hs.Write(msg[half:])
+					h := hs.Sum(nil)
+					if string(h) != string(e[:]) {
+						c.Fail("digest-mismatch", i, op.K, "the streaming hasher (NewHashWithUserID, reused after Reset; uid %d bytes, msg %d bytes) does not give SM3(ZA || M) of the model", len(uid), len(msg))
+						return
+					}
+					rr, ss, err = sm2.Sign(rd, &priv.PrivateKey, h)
+				} else {
+					rr, ss, err = sm2.SignWithSM2(rd, &priv.PrivateKey, uid, msg)
+				}
+				if err == nil {
+					if rr == nil || ss == nil {
+						c.Fail("sign-failed", i, op.K, "package-level Sign returned neither numbers nor an error")
+						return
+					}
+					sig = sm2m.MarshalDERSig(rr, ss)
 				}
 			default:
 				sig, err = priv.SignWithSM2(rd, uid, msg)
